@@ -150,3 +150,66 @@ func ruleOU13(c *Ctx) {
 		c.bad("<module>", "term.GetSize", "-", "no call of term.GetSize found: the layout width is not measured")
 	}
 }
+
+// ------------------------------------------------------------------ OU14
+
+func init() {
+	register(&Rule{ID: "OU14", Min: 1, Run: ruleOU14,
+		Doc: "display-width-is-the-library's-string-width: the measure every padding and truncation decision of the renderer rests on (visibleLen) returns runewidth.StringWidth of its argument (escape sequences stripped first): the width of a string is not the sum of the widths of its runes (an emoji with a modifier or a ZWJ sequence is one cluster of width 2), so a measure that adds up RuneWidth rune by rune over-counts such titles and the id column of those rows shifts left. What is checked is the shape - every returned value is the result of a StringWidth call on a value derived from the parameter, not an accumulation - not the library's tables"})
+}
+
+func ruleOU14(c *Ctx) {
+	vl := c.ErgoFn("visibleLen")
+	if vl == nil || vl.Blocks == nil {
+		c.unk("ergo.visibleLen", "anchor", "-", "display-width measure visibleLen not found")
+		return
+	}
+	okAll := true
+	why := ""
+	n := 0
+	var leaves func(v ssa.Value, d int)
+	seen := map[ssa.Value]bool{}
+	leaves = func(v ssa.Value, d int) {
+		v = resolve(v)
+		if seen[v] || d > 8 {
+			return
+		}
+		seen[v] = true
+		switch x := v.(type) {
+		case *ssa.Phi:
+			for _, e := range x.Edges {
+				leaves(e, d+1)
+			}
+		case *ssa.Const:
+			n++ // a constant width for a constant case (empty string)
+		case *ssa.Call:
+			name := calleeFullName(&x.Call)
+			if name == "github.com/mattn/go-runewidth.StringWidth" || name == "(*github.com/mattn/go-runewidth.Condition).StringWidth" {
+				n++
+				arg := x.Call.Args[len(x.Call.Args)-1]
+				if len(vl.Params) > 0 && !derivesFrom(arg, vl.Params[0]) {
+					okAll, why = false, "StringWidth is applied to "+c.canon(arg)+", not to the measured string"
+				}
+				return
+			}
+			if cal := calleeOf(&x.Call); cal != nil && c.InModule(cal) && cal.Blocks != nil && cal != vl {
+				for _, r := range returnsOf(cal) {
+					if len(r.Results) > 0 {
+						leaves(r.Results[0], d+1)
+					}
+				}
+				return
+			}
+			okAll, why = false, "the width comes from "+name
+		default:
+			okAll, why = false, fmt.Sprintf("the width is computed (%T at %s), not taken from StringWidth", v, c.Pos(v.Pos()))
+		}
+	}
+	for _, r := range returnsOf(vl) {
+		if len(r.Results) > 0 {
+			leaves(returnedValue(r, 0), 0)
+		}
+	}
+	c.check(okAll && n > 0, c.Name(vl), "measure", c.FnPos(vl), "every returned width is runewidth.StringWidth of the (stripped) argument",
+		"the display width is not the library's string width: "+why+" - clusters (emoji with modifiers, ZWJ sequences) are over-counted and the id column of those rows shifts")
+}
